@@ -1237,7 +1237,40 @@ class DomainMapping(CanBehaveLikeAVariable[T], ABC):
 
     @cached_property
     def _all_variable_instances_(self) -> List[Variable]:
-        return self._child_._all_variable_instances_
+        variables = list(self._child_._all_variable_instances_)
+        for argument in self._symbolic_arguments_:
+            variables.extend(argument._all_variable_instances_)
+        return variables
+
+    @property
+    def _symbolic_arguments_(self) -> List[SymbolicExpression]:
+        """
+        :return: The arguments of the mapping (of a call, the key of an index) that are symbolic expressions themselves,
+         they are evaluated together with the child and the mapping is applied to their values.
+        """
+        return []
+
+    def _evaluate_symbolic_arguments_(
+        self, bindings: Dict[int, HashedValue]
+    ) -> Iterable[Dict[int, HashedValue]]:
+        """
+        Evaluate the symbolic arguments one after the other, each under the values chosen for the previous ones.
+
+        :param bindings: The bindings of the current result of the child.
+        :return: The bindings extended by one combination of values of the arguments.
+        """
+        arguments = self._symbolic_arguments_
+
+        def combinations_from(index, current_bindings):
+            if index == len(arguments):
+                yield current_bindings
+                return
+            for result in arguments[index]._evaluate__(current_bindings, parent=self):
+                yield from combinations_from(
+                    index + 1, {**current_bindings, **result.bindings}
+                )
+
+        yield from combinations_from(0, bindings)
 
     @cached_property
     def _type_(self):
@@ -1264,6 +1297,22 @@ class DomainMapping(CanBehaveLikeAVariable[T], ABC):
 
         # decided now: this generator may be resumed after the expression has been evaluated in another position
         used_as_condition = self._is_used_as_condition_
+        if self._symbolic_arguments_:
+            yield from (
+                self._build_operation_result_and_update_truth_value_(
+                    OperationResult(bindings, False, self),
+                    mapped_value,
+                    used_as_condition,
+                )
+                for child_result in self._child_._evaluate__(sources, parent=self)
+                for bindings in self._evaluate_symbolic_arguments_(
+                    child_result.bindings
+                )
+                for mapped_value in self._apply_mapping_(
+                    child_result[self._child_._id_], bindings
+                )
+            )
+            return
         yield from (
             self._build_operation_result_and_update_truth_value_(
                 child_result, mapped_value, used_as_condition
@@ -1332,6 +1381,19 @@ class DomainMapping(CanBehaveLikeAVariable[T], ABC):
     def _plot_color_(self, value: ColorLegend):
         self._plot_color__ = value
         self._node_.color = value
+
+
+def _value_of_argument_(
+    argument: Any, bindings: Optional[Dict[int, HashedValue]]
+) -> Any:
+    """
+    :param argument: An argument of a mapping, a plain value or a symbolic expression.
+    :param bindings: The current bindings, they hold the values of the symbolic arguments.
+    :return: The value the argument has in the bindings.
+    """
+    if bindings is not None and isinstance(argument, SymbolicExpression):
+        return bindings[argument._id_].value
+    return argument
 
 
 @dataclass(eq=False, repr=False)
@@ -1449,8 +1511,19 @@ class Index(DomainMapping):
 
     _key_: Any
 
-    def _apply_mapping_(self, value: HashedValue) -> Iterable[HashedValue]:
-        yield HashedValue(id_=value.id_, value=value.value[self._key_])
+    def __post_init__(self):
+        super().__post_init__()
+        self._update_children_(*self._symbolic_arguments_)
+
+    @property
+    def _symbolic_arguments_(self) -> List[SymbolicExpression]:
+        return [self._key_] if isinstance(self._key_, SymbolicExpression) else []
+
+    def _apply_mapping_(
+        self, value: HashedValue, bindings: Optional[Dict[int, HashedValue]] = None
+    ) -> Iterable[HashedValue]:
+        key = _value_of_argument_(self._key_, bindings)
+        yield HashedValue(id_=value.id_, value=value.value[key])
 
     @property
     def _name_(self):
@@ -1466,13 +1539,27 @@ class Call(DomainMapping):
     _args_: Tuple[Any, ...] = field(default_factory=tuple)
     _kwargs_: Dict[str, Any] = field(default_factory=dict)
 
-    def _apply_mapping_(self, value: HashedValue) -> Iterable[HashedValue]:
-        if len(self._args_) > 0 or len(self._kwargs_) > 0:
-            yield HashedValue(
-                id_=value.id_, value=value.value(*self._args_, **self._kwargs_)
-            )
-        else:
-            yield HashedValue(id_=value.id_, value=value.value())
+    def __post_init__(self):
+        super().__post_init__()
+        self._update_children_(*self._symbolic_arguments_)
+
+    @cached_property
+    def _symbolic_arguments_(self) -> List[SymbolicExpression]:
+        return [
+            argument
+            for argument in (*self._args_, *self._kwargs_.values())
+            if isinstance(argument, SymbolicExpression)
+        ]
+
+    def _apply_mapping_(
+        self, value: HashedValue, bindings: Optional[Dict[int, HashedValue]] = None
+    ) -> Iterable[HashedValue]:
+        args = [_value_of_argument_(argument, bindings) for argument in self._args_]
+        kwargs = {
+            name: _value_of_argument_(argument, bindings)
+            for name, argument in self._kwargs_.items()
+        }
+        yield HashedValue(id_=value.id_, value=value.value(*args, **kwargs))
 
     @property
     def _name_(self):
